@@ -62,12 +62,24 @@ pub fn write(
 
         // SONAME should always be accessible through program headers alone, so we don't really
         // need to fall back to trying to read from the mapping file.
-        let soname = dumper
-            .from_process_memory_for_index(map_idx)
-            .ok()
-            .map(|SoName(n)| n);
+        let soname = dumper.from_process_memory_for_index(map_idx);
+        // An image whose dynamic section was read and holds no SONAME has none. The file of
+        // that path is only consulted when the image could not be read: it need not be the
+        // file that is mapped (the mapped one may have been deleted and replaced).
+        let image_has_no_soname = matches!(
+            &soname,
+            Err(errors::DumperError::ModuleReaderError(errors::ModuleReaderError::NoSoName { program_headers, .. }))
+                if matches!(**program_headers, errors::ModuleReaderError::NoSoNameEntry)
+        );
+        let soname = soname.ok().map(|SoName(n)| n);
 
-        let module = fill_raw_module(buffer, &dumper.mappings[map_idx], &identifier, soname, true)?;
+        let module = fill_raw_module(
+            buffer,
+            &dumper.mappings[map_idx],
+            &identifier,
+            soname,
+            !image_has_no_soname,
+        )?;
         modules.push(module);
     }
 
